@@ -755,3 +755,6 @@ def run(ctx):
     # the stream this property talks about is all-or-nothing: generate_dump succeeds only if its writer returned Ok (rules/c01.py rule_hard_streams)
     from rules import c01 as _c01h
     _c01h.rule_hard_streams(ctx, R="C06/hard-streams", only=('thread_list_stream::write',))
+    # which thread is "the blamed one" is decided by tid, per entry (same rule instance as C05/branch-select)
+    from rules import c05 as _c05bs
+    _c05bs.rule_branch_select(ctx, R="C06/crash-context-for-blamed-tid")
